@@ -62,6 +62,8 @@ func Process(stmts []*proto.Statement, rwrand, rwtime bool) (retErr error) {
 		parser := rsql.NewParser(strings.NewReader(stmts[i].Sql))
 		parsed, err := parser.ParseStatement()
 		if err != nil {
+			// The text may start with empty statements.
+			processMulti(stmts[i], rwrand, rwtime)
 			continue
 		}
 		// The text may hold further statements, all of which the database driver
@@ -137,8 +139,9 @@ func isExplain(s sql.Statement) bool {
 	return ok
 }
 
-// splitStatements splits a statement text at its top-level semicolons, dropping
-// empty statements.
+// splitStatements splits a statement text at the semicolons which end its statements,
+// dropping empty statements. The semicolons inside the body of a CREATE TRIGGER
+// statement (BEGIN ... END, where CASE ... END may nest) do not end the statement.
 func splitStatements(text string) []string {
 	runes := []rune(text)
 	var texts []string
@@ -148,15 +151,68 @@ func splitStatements(text string) []string {
 			texts = append(texts, t)
 		}
 	}
+
+	// Where in a statement the scan is: at its start, after CREATE [TEMP], in an
+	// ordinary statement, in the head of a CREATE TRIGGER, or depth levels deep in
+	// a trigger body. A trigger body which has been closed is an ordinary statement.
+	const (
+		atStart = iota
+		afterCreate
+		ordinary
+		triggerHead
+		triggerBody
+	)
+	state, depth := atStart, 0
+
 	scanner := rsql.NewScanner(strings.NewReader(text))
 	for {
-		pos, tok, _ := scanner.Scan()
+		pos, tok, lit := scanner.Scan()
 		if tok == rsql.EOF {
 			break
+		}
+		if tok == rsql.COMMENT {
+			continue
+		}
+		switch state {
+		case triggerBody:
+			switch tok {
+			case rsql.CASE:
+				depth++
+			case rsql.END:
+				if depth--; depth == 0 {
+					state = ordinary
+				}
+			}
+			continue
+		case triggerHead:
+			if tok == rsql.BEGIN {
+				state, depth = triggerBody, 1
+				continue
+			}
+		case atStart:
+			if tok == rsql.CREATE {
+				state = afterCreate
+				continue
+			}
+			if tok != rsql.SEMI {
+				state = ordinary
+			}
+		case afterCreate:
+			switch {
+			case tok == rsql.TEMP || strings.EqualFold(lit, "temporary"):
+				continue
+			case tok == rsql.TRIGGER:
+				state = triggerHead
+				continue
+			}
+			if tok != rsql.SEMI {
+				state = ordinary
+			}
 		}
 		if tok == rsql.SEMI {
 			add(pos.Offset)
 			start = pos.Offset + 1
+			state = atStart
 		}
 	}
 	add(len(runes))
